@@ -181,4 +181,4 @@ class StoreEngine(Engine):
 
 
 StoreEngine.GENERATORS.update({'c05': scen.gen_c05, 'c04': scen.gen_c04, 'c01': scen.gen_c01, 'c07': scen.gen_c07,
-                              'c06': scen.gen_c06, 'c02': scen.gen_c02, 'c13': scen.gen_c13, 'c18': scen.gen_c18, 'c12': scen.gen_c12, 'c20': scen.gen_c20, 'c02zone': scen.gen_c02zone, 'c18zone': scen.gen_c18zone})
+                              'c06': scen.gen_c06, 'c02': scen.gen_c02, 'c13': scen.gen_c13, 'c18': scen.gen_c18, 'c12': scen.gen_c12, 'c20': scen.gen_c20, 'c20crash': scen.gen_c20crash, 'c02zone': scen.gen_c02zone, 'c18zone': scen.gen_c18zone})
